@@ -3193,7 +3193,7 @@ class FuncCanon(object):
     def revdisplay(self, blk):
         """`(a, b)[::-1]` -> `(b, a)` for call-free elements (nothing to evaluate in another order); `(a, b)[k]` -> the element"""
         for st in blk:
-            for n in self._own_exprs(st):
+            for n in ([st] if isinstance(st, (ast.Assign, ast.AugAssign, ast.Return, ast.Expr)) else []) + list(self._own_exprs(st)):
                 for fld, val in ast.iter_fields(n):
                     vals = val if isinstance(val, list) else [val]
                     for k, c in enumerate(vals):
@@ -4250,6 +4250,8 @@ class Inliner(object):
             if isinstance(n, ast.Call) and ((isinstance(n.func, ast.Attribute) and n.func.attr == fn.name) or (isinstance(n.func, ast.Name) and n.func.id == fn.name)):
                 return False
         for d in a.defaults:
+            if isinstance(d, ast.Tuple) and all(isinstance(x, ast.Constant) for x in d.elts):
+                continue          # a tuple of literals is as immutable as a literal (`flag=()`)
             if not isinstance(d, ast.Constant) and not (isinstance(d, ast.Attribute) and isinstance(d.value, ast.Name)) and not (isinstance(d, ast.Name) and d.id in SENTINELS.get(self.modname, ())) \
                     and not (isinstance(d, ast.Name) and self._stable_def_name(d.id)):
                 return False
